@@ -16,50 +16,50 @@ CHECKS = {
          "All 1- and 2-spec sets over 0..L+2 for L in {1,2,3,10}; 1..3-spec sets over {0,1,L-1,L,L+1,2^32,2^63,2^64-2,2^64-1,2^64} for large L; threshold-straddling multi-range sets; out-of-grammar values. The oracle admits exactly what the statement admits (multipart-or-200 zone, inverted spec and >64-bit numbers either way). Thorough tier repeats the sweep on a build without overflow checks.",
          "Grey-zone list syntax (OWS before commas, empty elements, other-case unit) is not asserted either way.", "3/C03"),
  "C04": ("serve_mc", "exhaustive enumeration of the categorical product of validators and four conditional headers against a straight-line RFC 7232 s.6 evaluator",
-         "entity etag {absent,strong,weak,strong with ', '} x mtime {absent, whole second, +1ms, +999999999ns} x If-Match x If-None-Match (absent, *, all lists of 1..k tags over 5 tags, 3 separators) x If-Modified-Since x If-Unmodified-Since {absent, LM-1s, LM, LM+1s} x GET/HEAD, all executed on the real serve().",
+         "entity etag {absent,strong,weak,strong with ', '} x mtime {absent, whole second, +1ms, +999999999ns} x If-Match x If-None-Match (absent, *, all lists of 1..k tags over 5 tags, 3 separators) x If-Modified-Since x If-Unmodified-Since {absent, LM-1s, LM, LM+1s} x GET/HEAD, all executed on the real serve(); plus a linear date family: each date header in RFC 850 and asctime spelling for LM-1/LM/LM+1, at the epoch, in 2100, in 9999 and 400 days after the run (i.e. beyond the server's clock); plus two-request histories on one thread (serve() must not keep state between calls).",
          "Only well-formed validators are asserted (lenient list syntax / malformed dates: no claim). k = (3,1)/(1,3) quick, (4,2)/(2,4) thorough.", "3/C04"),
  "C05": ("serve_mc", "exhaustive enumeration of If-Range values (near-miss validators, dates in three formats, all short byte strings over the parser's branch characters) x Range shapes x entity validators",
          "206 (or 416) is admitted only if If-Range is absent or byte-identical to a strong entity ETag, and then must be exactly what C03 prescribes; every other value must yield the complete 200 without Content-Range.",
-         "Arbitrary-bytes part is exhaustive up to length 4 (quick) / 6 (thorough) over a 7-symbol alphabet.", "3/C05"),
+         "Arbitrary-bytes part is exhaustive up to length 4 (quick) / 6 (thorough) over a 7-symbol alphabet. Entity tags include every kind of etagc a parser can trip over (comma, semicolon, '*', 'W/' inside the quotes, backslash, empty, obs-text, 300 bytes).", "3/C05"),
  "C06": ("serve_mc", "exhaustive enumeration of 2..8-range sets x lengths x entity header sets x If-Range x per-part chunkings; independent multipart parser as oracle",
          "Every multipart body produced is parsed back by an independent verifier (boundary from Content-Type, per-part delimiter/Content-Range/entity headers/blank line/descriptor-exact bytes, closing delimiter) and its parsed length compared with Content-Length; covers decimal-width changes, 200-byte entity headers, L up to 2^64-1.",
          "4..8-range tuples are a stated subset (rotations and stride-2 walks of the base list).", "3/C06"),
  "C07": ("serve_mc", "exhaustive fault enumeration: every entity-stream script with one fault (early end at every offset, Err at every chunk index, extra byte, extra chunk, endless stream) x response shapes x fault position",
          "Each faulty script is played to the real body; the first terminal event must be an error (never a clean end) for short/failing streams, the delivered bytes must be a correct prefix (multipart: parsed prefix, no closing delimiter), and nothing beyond the announced length is ever delivered.",
          "Range lengths {1,2,5} (thorough adds 100 and 70000); <= 4..5 events per stream.", "3/C07"),
- "C08": ("stream_mc", "exhaustive enumeration of all operation histories (write/write_all/flush/poll/poll-until-pending/drop) up to a depth on the real BodyWriter + Body, reference model = byte vector and cursors checked after every operation",
+ "C08": ("stream_mc", "exhaustive enumeration of all operation histories (write/write_all/flush/flush-then-drain/poll/poll-until-pending/drop) up to a depth on the real BodyWriter + Body, reference model = byte vector and cursors checked after every operation",
          "Every history up to depth 4..6 (by chunk size) over the full write-size alphabet 0..3c for c in {1,2,3,4} and boundary sizes for {7,4096,65536} is executed from the initial state; prefix property, non-empty frames, at-least-one-byte acceptance, flush availability (Pending only after everything flushed was delivered) and the clean end are checked at every step. States at depth D-1 vs D are reported to show saturation.",
-         "Product is depth-bounded (4..6); beyond that only the 'long and narrow' family (a 1-3 operation unit repeated up to 100 / 1000 times, realistic chunk sizes) reaches the 7th+ operation and hundreds of queued chunks. No random histories are used as evidence.", "3/C08"),
+         "Polls present one waker throughout and, in a second set of configurations, a different waker at every poll; `flush-then-poll-until-pending` is one operation so that availability is checked right after every flush. Product is depth-bounded (4..6); beyond that only the 'long and narrow' family (a 1-3 operation unit repeated up to 100 / 1000 times, realistic chunk sizes) reaches the 7th+ operation and hundreds of queued chunks. No random histories are used as evidence.", "3/C08"),
  "C09": ("stream_mc", "exhaustive enumeration of write/flush/poll/drop histories x gzip levels 1..9 x chunk sizes x payload classes; independent gzip member parser + CRC-32 + streaming inflater as oracle",
          "After every successful flush the streaming inflater, fed only the frames delivered so far, must reproduce everything written before it; after writer drop the body must be exactly one gzip member (header, final block, CRC-32, ISIZE, no trailing bytes) of the written bytes; chunk size 1 puts every header/trailer byte in its own frame.",
          "Depth 3 (quick) / 4 (thorough) for the product; plus large incompressible writes (40 000 / 200 000 bytes), a flush 'ramp' (every total up to 140 000 / 280 000 bytes in 500-byte writes, every level) and long repeated units. miniz_oxide::inflate is in the trusted base (thorough tier cross-checks distinct bodies with C zlib via python).", "3/C09"),
  "C11": ("stream_mc+sched_mc", "exhaustive enumeration of histories with abort / body-drop at every position (raw and gzip writers), byte-counting allocator for queue release",
          "After abort: next terminal event is the abort error (never clean end, never Pending), delivered bytes a prefix, is_end_stream false until delivered, later write/flush fail. After body drop: flush with unflushed bytes and chunk-completing writes fail, everything after the first error fails, the writer is told within write(c),flush,write,flush, and the queued chunks are released (live heap measured).",
-         "Sequential part depth 3..5; the concurrent part is C10's scheduler exploration (programs containing abort and consumer variants that drop the body).", "3/C11"),
+         "Sequential part depth 3..5; the concurrent part is C10's scheduler exploration (programs containing abort and consumer variants that drop the body) and the loom cross-check restricted to programs with an abort and consumers that drop the body.", "3/C11"),
  "C16": ("neg_mc", "exhaustive enumeration of the Accept-Encoding list language (0..3/4 distinct codings x 11 weights x 4 whitespace styles) against an independent RFC 7231 5.3.4 evaluator; all short byte strings for the no-panic clause",
-         "should_gzip is compared with the evaluator on every enumerated grammatical value (identity default = least-preferred acceptable, qualities in thousandths); repeated codings, every byte string of length <= 5/6 over 12 symbols and every weight string of length <= 6 over {0,1,9,.} must not panic.",
+         "should_gzip is compared with the evaluator on every enumerated grammatical value (identity default = least-preferred acceptable, qualities in thousandths); repeated codings, every string of <= 5/7 symbols over 14 symbols (incl. 0xFF and two well-formed multi-byte UTF-8 characters) and every weight string of length <= 6 over {0,1,9,.} must not panic.",
          "Upper-case codings / 'Q=' / duplicate codings: no claim (statement silent). Also lists of up to 42 distinct codings with the deciding elements first and last.", "3/C16"),
  "C17": ("neg_mc+stream_mc", "exhaustive enumeration of Accept-Encoding values x gzip level 0..9 x chunk sizes x methods x request representation, real streaming_body + independent decoder",
          "Vary names accept-encoding; Content-Encoding: gzip iff evaluator prefers gzip and level > 0; body sniffed: says gzip <=> exactly one gzip member of the payload, else payload verbatim; Request and Parts representations agree; HEAD same headers and no writer.",
-         "Accept-Encoding values: all C16 lists of <= 2 elements + 20 hand-picked; payloads {0, 300 bytes}.", "3/C17"),
- "C10": ("sched_mc", "stateless exhaustive exploration of thread interleavings of the real code under a controlled scheduler (decision points: every acquisition of the instrumented mutex, wake(), park, wait, environment choices), depth-first over choice vectors with iterative preemption bounding",
-         "Every schedule of {producer program} || {consumer loop} for all programs up to length 3 (quick) / 4 (thorough) with unbounded preemptions, longer programs and environment choices (fresh waker per poll, spurious re-polls) at preemption bound 1..2, abort programs, gzip writer; deadlock (= lost wake-up) detection, delivered == accepted on clean end, abort => error, bounded polls after the writer is gone. Each violating schedule is replayed and must reproduce.",
+         "Accept-Encoding values: all C16 lists of <= 2 elements + 20 hand-picked; writer histories: write_all(n), flush, drop for n in {0, 300}; drop only; flush, drop; write_all(300), drop; short/long/short writes without a flush; 40 small writes, flush, one more byte.", "3/C17"),
+ "C10": ("sched_mc", "stateless exhaustive exploration of thread interleavings of the real code under a controlled scheduler (decision points: every acquisition of the instrumented mutex, wake(), park, wait, environment choices), depth-first over choice vectors with iterative preemption bounding; cross-checked by a second, independent explorer (loom, DPOR) over the same source files; sequential histories with a wake-up oracle",
+         "Every schedule of {producer program} || {consumer loop} for all programs up to length 3 (quick) / 4 (thorough) with unbounded preemptions, longer programs and environment choices (fresh waker per poll, spurious re-polls) at preemption bound 1..2, abort programs, gzip writer; deadlock (= lost wake-up) detection, delivered == accepted on clean end, abort => error, bounded polls after the writer is gone. Each violating schedule is replayed and must reproduce. A family that also preempts inside critical sections (the only way a try_lock can find the mutex held). loom (loomchk/) explores every program of <= 4/5 operations over {W1,W2,W3,F,A} x three waker disciplines x {drain, spurious re-poll} plus bursts of up to 70 queued chunks and gzip programs on the same chunker.rs/gzip.rs compiled in through the hook seam; every single-threaded history up to depth 4/5 is checked for 'the waker of the last Pending poll is woken as soon as data, the end or an abort becomes observable'.",
          "Scheduling granularity = lock acquisition / wake / park (complete for safe code over one Mutex, no atomics); preemption bounds, budgets, caps and program lengths per family are listed in the evidence (thorough: all programs <= 4 ops unbounded, 5 ops at bound 3, 6 ops at bound 2, environment choices at bound 2-3, gzip writer at bound 3 -- the gzip family can hit its per-program cap, in which case `exhaustive` is false); no partial-order reduction.", "2.4, 3/C10"),
  "C18": ("fs_mc", "exhaustive enumeration of file sizes x ranges x truncation/growth fault points (before every poll) on real files, std::fs as reference",
-         "Every range with start/end on, just before and just after the 64 KiB read boundaries, for seven file sizes, read through get_range and through serve(); truncation to every interesting length before every poll: error within a bounded number of polls, never a clean short end, delivered bytes unchanged; metadata and ETag stability / sensitivity (append, mtime +1s, +1ns, replaced inode); non-regular files refused.",
+         "Every range with start/end on, just before and just after the 64 KiB read boundaries, for seven file sizes, read through get_range and through serve(); truncation to every interesting length before every poll: error within a bounded number of polls, never a clean short end, delivered bytes unchanged; metadata and ETag stability / sensitivity (append, mtime +1s, +1ns, a lattice of mtime deltas around a recent time and mirrored around the epoch, replaced inode; pre-epoch, near-future and far-future mtimes with two instances compared); non-regular files refused.",
          "Runs on the sandbox file system (ns-granular mtimes are probed and the +1ns case is counted as skipped if the fs truncates them). Ranges of >= 2^32 bytes are read from a sparse file (first chunks in quick, to the end in thorough).", "3/C18"),
  "C19": ("fs_mc", "exhaustive enumeration of path strings (1..3/4 segments over 9 segment kinds, slashes, NUL at every position) x Accept-Encoding x auto_gzip against a fixture tree, std::fs + independent negotiation evaluator as reference",
          "Lexical rule decides rejection (InvalidInput); accepted paths must open exactly the inode std::fs opens for base/path (or its .gz sibling when substitution applies), with the same error kind on failure, always inside the base directory; encoding()/add_encoding_headers consistent.",
-         "No symlinks in the fixture (documented non-goal of the crate); the empty path is excluded from the equality oracle only. Includes names of 250..256 bytes (NAME_MAX boundary for the .gz sibling) and a 250+-byte path of short segments.", "3/C19"),
+         "No symlinks in the fixture (documented non-goal of the crate); the empty path is excluded from the equality oracle only. Includes names of 250..256 bytes (NAME_MAX boundary for the .gz sibling), a 250+-byte path of short segments, request paths that themselves end in .gz (with and without a .gz.gz sibling), empty files, .gz siblings older / newer / as old as the plain file, names with space, backslash, percent escape and non-ASCII letters.", "3/C19"),
  "C12": ("serve_mc+stream_mc", "per-step monitor (size_hint, is_end_stream sampled before every poll) attached to every execution of the C01, C06, C08, C09, C11 explorations, plus all Body::from conversions",
          "Retrospective check on every sample of every explored body: lower <= bytes still delivered <= upper on clean ends, exact hints for serve/Body::from bodies, is_end_stream never followed by bytes or an error, streaming body never at end while chunks or an abort are pending.",
          "Same bounds as the explorations it rides on.", "3/C12"),
  "C13": ("serve_mc", "exhaustive enumeration of all byte strings up to a length bound over the parsers' branch characters in each of six request headers, boundary numbers, repeated lines, header pairs, 11 methods, 12 entities",
          "No panic in serve() or while draining (+3 polls), status within the documented set, 405 + Allow + no entity read for other methods. Both with overflow checks/debug assertions on and (thorough) off.",
-         "'Arbitrary bytes' is bounded-exhaustive over a 14-symbol alphabet (length <= 4 quick, <= 6 thorough, after each of 4 prefixes), not all strings.", "3/C13"),
+         "'Arbitrary bytes' is bounded-exhaustive over a 16-symbol alphabet incl. 0xFF and two well-formed multi-byte UTF-8 characters (<= 4 symbols quick, <= 6 thorough, after each of 4 prefixes), not all strings.", "3/C13"),
  "C14": ("serve_mc", "exhaustive enumeration of two-request histories (first response's served validators echoed in every subset) x validators x mtimes x header sets",
          "Second requests are built from the bytes the real first response carried; outcome derived from the echoed subset alone; first responses checked for Accept-Ranges, ETag, Date/Last-Modified relation, entity header presence/absence per status.",
-         "Wall clock not controlled: past mtimes are decades old; date echoes for the future mtime are excluded.", "3/C14"),
+         "Wall clock not controlled: past mtimes are decades old; the two date echoes for the future mtime are known findings. Entity tags with comma / semicolon / '*' / backslash / obs-text / empty / 300 bytes; entity header sets incl. repeated field names and Latin-1 values.", "3/C14"),
  "C15": ("serve_mc+stream_mc", "every request of the C01-C06 spaces executed twice (GET, HEAD) and compared; streaming_body negotiated configurations with HEAD",
          "Same status, identical header multiset apart from Date/Last-Modified (within 2 s), empty ended body with exact hint 0 for 2xx/3xx/416, zero get_range calls for HEAD.",
          "Same alphabets as C01/C03/C06.", "3/C15"),
@@ -90,7 +90,7 @@ def main():
     na = [{"property_id": p, "reason": "check not built yet (work in progress; DESIGN.md section 3 has the plan)"} for p in ALL if p not in CHECKS]
     m = {
         "version": 1,
-        "setup_cmd": "cd /verif/harness && CARGO_NET_OFFLINE=true cargo build --release --offline && CARGO_NET_OFFLINE=true cargo build --profile nochecks --offline && CARGO_NET_OFFLINE=true cargo test --release --offline --test oracle_selftest",
+        "setup_cmd": "cd /verif/harness && CARGO_NET_OFFLINE=true cargo build --release --offline && CARGO_NET_OFFLINE=true cargo build --profile nochecks --offline && CARGO_NET_OFFLINE=true cargo test --release --offline --test oracle_selftest && cd /verif/loomchk && CARGO_NET_OFFLINE=true cargo build --release --offline",
         "hooks": {
             "guard": "verif-hooks",
             "enable": "cargo feature `verif-hooks` of http-serve, enabled by the path dependency in /verif/harness/Cargo.toml (http-serve = { path = \"/repo\", features = [\"dir\", \"verif-hooks\"] })",
@@ -100,6 +100,7 @@ def main():
         },
         "engines": [
             {"name": "sched_mc", "path": "/verif/harness/src/sched_mc.rs", "serves_properties": ["C10","C11","C12","C20"], "kind_free_text": "controlled-scheduler exploration of real producer/consumer threads (src/sched.rs) through the verif-hooks instrumented mutex; DFS over choice vectors, iterative preemption bounding, replayable schedules"},
+            {"name": "loomchk", "path": "/verif/loomchk/src/main.rs", "serves_properties": ["C10","C11"], "kind_free_text": "loom (DPOR) exploration of the real /repo/src/chunker.rs and gzip.rs, compiled into the checker crate by #[path] inclusion with the verif-hooks mutex seam bound to loom::sync::Mutex; a second explorer next to sched_mc, run by ./check C10 and ./check C11"},
             {"name": "fs_mc", "path": "/verif/harness/src/fs_mc.rs", "serves_properties": ["C18","C19"], "kind_free_text": "enumeration of file/range/fault-point and path-string spaces on real files, std::fs as reference"},
             {"name": "stream_mc", "path": "/verif/harness/src/stream_mc.rs", "serves_properties": ["C08","C09","C11","C12","C17","C20"], "kind_free_text": "stateless exhaustive exploration of operation histories of the real streaming_body writer/body pair, byte-vector reference model, independent gzip decoder"},
             {"name": "neg_mc", "path": "/verif/harness/src/neg_mc.rs", "serves_properties": ["C15","C16","C17"], "kind_free_text": "exhaustive enumeration of the Accept-Encoding language and of negotiated streaming_body configurations against an independent RFC 7231 evaluator"},
